@@ -215,3 +215,20 @@ def oracle(case, out, clauses=('c02', 'c03')):
                 if not any(b > f['begin'] and e is not None and e < f['ret_t'] and t2 == tid for b, e, t2 in xfl):
                     return ('reader-flush-true-means-exporter-forceflush-invoked', f'T{tid}')
     return None
+
+
+GEN = []
+LEAN_TARGETS = ['OtelVerif.Props.C02Reader']
+THEOREMS_C02 = ['Otel.C02Reader.' + t for t in ('reader_no_export_after_shutdown', 'reader_flush_complete_partial',
+                                                  'reader_flush_complete_witness', 'reader_flush_true_needs_exporter_flush')] + \
+               ['Otel.Reader.reachable_inv', 'Otel.Reader.inv_astep']
+THEOREMS_C03 = ['Otel.C02Reader.export_not_reentrant_reader', 'Otel.Reader.reachable_inv', 'Otel.Reader.inv_astep']
+HARNESSES = [H_PMR]
+
+
+def model_line(case, out):
+    return abstract(case.line, out)
+
+
+def agree(case, out, mout):
+    return mout.startswith('ok ')
